@@ -342,7 +342,12 @@ class C17(Check):
         "operation the scheduler plants pre-existing targets (random bytes or "
         "an earlier real output) and scripts the user: y, n, empty, Y, yes, "
         "'y ', ' y', other text, EOF, Ctrl-C, answers running out; ENOSPC / "
-        "EACCES is injected into ~10% of confirmed writes. Besides the random "
+        "EACCES is injected into ~10% of confirmed writes. 40% of the "
+        "histories repeat an earlier command; 15% run as an ordinary user "
+        "(capabilities dropped) with write-protected targets; targets may be "
+        "empty, have odd file times, lie behind a symlinked directory, arrive "
+        "with the directory times restored, or be the file fd 1 is appended "
+        "to. Besides the random "
         "histories a seeded permutation of the configuration matrix (sink x "
         "exists x answer class x warnings x str/Path) is walked. A case is "
         "non-trivial if at least one operation met a pre-existing target; "
